@@ -7,6 +7,11 @@ claimed = {
 import importlib.util, os, sys
 spec = json.load(open('/verif/manifest_src.json'))
 props = [json.loads(l)['id'] for l in open('/verif/properties.jsonl')]
+import re, glob, collections
+obligation_names = collections.defaultdict(list)
+for f in sorted(glob.glob('/verif/harness/*.go')):
+    for m in re.finditer(r'^func (vh_(C\d\d)_\w+)\(\)', open(f).read(), re.M):
+        obligation_names[m.group(2)].append(m.group(1))
 checks = []
 na = []
 for pid in props:
@@ -19,7 +24,7 @@ for pid in props:
             "evidence_file": f"/verif/evidence/{pid}.json",
             "replay_cmd_template": "./check replay {path}",
             "engine": "vcheck",
-            "level_claimed": {"category": "model_checking", "text": c['text'], "design_ref": c.get('design_ref', 'DESIGN.md §4 ' + pid)},
+            "level_claimed": {"category": "model_checking", "text": c['text'] + " Obligations (harness functions, described in HARNESSES.md): " + ", ".join(obligation_names[pid]) + ".", "design_ref": c.get('design_ref', 'DESIGN.md §4 ' + pid)},
             "level_note": c['note'],
             "technique": c.get('technique', "bounded symbolic execution of the real Go code (go/ssa -> SMT-LIB2 bit-vectors/FP, z3 5.1.0 with cvc5 fallback); counterexamples replayed natively"),
         })
